@@ -584,6 +584,10 @@ def gen_cases(run, aliases):
         for _ in range(n_pend):
             cases.append(gen_matrix_case(r, 'pending-adaptation', kind, gram=True, pending=True, n=r.choice([3, 8, 20, 30]),
                                          points=r.choice(['random', 'coincident']), dtype='float64'))
+    # very tall x: crosses the 20,000-row chunking inside ProductLaplaceKernel._get_kernel_matrix_impl
+    for kind in (['product'] if quick else ['product', 'product', 'laplace', 'lpq']):
+        cases.append(gen_matrix_case(r, 'class-matrix', kind, n=20011 + r.randint(0, 60), m=r.choice([3, 7]), d=3, gram=False,
+                                     points='random', tkind=r.choice(['diag', 'full']), dtype='float64', symmetric=False, dout=None))
     head, tail = cases[:2], cases[2:]
     r.shuffle(tail)                          # spread the expensive (d = 300) cases over the worker chunks
     return head + tail
